@@ -53,6 +53,16 @@ if copied:
     rc0, l0 = run_demos()
     res["demo_without_patch"] = "pass" if rc0 == 0 else "FAIL(unexpected)"
 rc, o = sh("git apply %s" % os.path.join(out, "patch.diff"), cwd=wt)
+if rc != 0:
+    # later fix commits touched neighbouring lines: try a three-way merge, accepted only when it leaves no conflict
+    rc, o = sh("git apply -3 %s" % os.path.join(out, "patch.diff"), cwd=wt)
+    rc2, st = sh("git diff --name-only --diff-filter=U", cwd=wt)
+    if rc != 0 or st.strip():
+        rc = 1
+        sh("git reset -q && git checkout -- .", cwd=wt)
+    else:
+        sh("git reset -q", cwd=wt)          # keep the merged changes unstaged, as a plain apply would
+        res["applied_by"] = "three-way merge (neighbouring lines changed by later fix commits)"
 res["patch_applies_on_main"] = (rc == 0)
 if rc != 0:
     res["apply_error"] = o[-500:]
@@ -62,7 +72,8 @@ else:
         res["demo_with_patch"] = "fail(as expected)" if rc1 != 0 else "PASS(unexpected)"
         res["demo_log_tail"] = l1[-600:]
     for target, d in copied:
-        os.remove(target)
+        if os.path.exists(target):
+            os.remove(target)
     rc, o = sh("go build ./pkg/... ./cmd/obitools/...", cwd=wt)
     res["builds"] = (rc == 0)
     rc, o = sh("python3 /verif/tools/baseline.py %s" % wt)
@@ -91,7 +102,7 @@ old_p = os.path.join(dst, "meta.json")
 if os.path.exists(old_p):
     try:
         old = json.load(open(old_p))
-        for k in ("strengthened", "first_try_caught", "kind"):
+        for k in ("strengthened", "first_try_caught", "kind", "obsolete", "refactor_note", "ported"):
             if k in old and k not in meta:
                 meta[k] = old[k]
         if "first_try_caught" not in meta and "verification_run" in old:
